@@ -450,6 +450,8 @@ fn check_tape_ab(tape: &[u8], gates: &Gates, stats: &mut Stats, counting: bool) 
     let mut opts = SpellOpts::wild();
     opts.comments = gates.want("TOKEN_COLUMN_AFTER_COMMENT");
     opts.non_ascii = opts.comments;
+    opts.line_comments = gates.want("TRIVIA_LINE_COMMENT");
+    opts.touch = gates.want("LEXEMES_MAY_TOUCH");
     let (lay, spelled) = layout(&lexemes, &opts, &mut lt);
     let oscat = lt.ratio(1, 6);
     let text = if oscat { with_oscat(&lay.text, &mut lt, gates) } else { lay.text.clone() };
